@@ -110,6 +110,14 @@ where
       -- not reachable from `chunkEquals`: in-flight and open blocks are found before the table is consulted
       | _ => .error .badEvent
 
+/-- the block `it` that `chunk_info_equals` compares against: the in-flight copy, else the open block, else the
+block re-read from disk (through the cache) -/
+def fragBytesFor (codec : Codec) (st : State) (idx : Nat) : Except Err (Bytes × Option (Nat × Bytes)) :=
+  match st.blocks[idx]? with
+  | some ⟨data, .inFlight, _⟩ => .ok (data, st.cache)
+  | some ⟨data, .opened, _⟩ => .ok (data, st.cache)
+  | _ => loadFragBlock codec st idx
+
 /-- `chunk_info_equals(proc, key, cmp)` with `proc->current_frag = d`: does table entry `c` hold the bytes `d`?
 Returns the answer and the new cache. (`key->size`, `key->hash` are `d.length`, `hd`.) -/
 def chunkEquals (codec : Codec) (byteCompare : Bool) (st : State) (d : Bytes) (hd : UInt32) (c : Chunk) :
@@ -117,13 +125,7 @@ def chunkEquals (codec : Codec) (byteCompare : Bool) (st : State) (d : Bytes) (h
   if c.size != d.length || c.hash != hd then .ok (false, st.cache)
   else if !byteCompare then .ok (true, st.cache)
   else
-    -- `it`: in-flight copy, else the open block, else the block re-read from disk
-    let it : Except Err (Bytes × Option (Nat × Bytes)) :=
-      match st.blocks[c.index]? with
-      | some ⟨data, .inFlight, _⟩ => .ok (data, st.cache)
-      | some ⟨data, .opened, _⟩ => .ok (data, st.cache)
-      | _ => loadFragBlock codec st c.index
-    match it with
+    match fragBytesFor codec st c.index with
     | .error e => .error e
     | .ok (blk, cache') =>
       if c.offset ≥ blk.length || blk.length - c.offset < c.size then .error .corrupted
@@ -162,41 +164,56 @@ def closeOpen (st : State) : State :=
   | none => st
   | some i => { st with blocks := (st.blocks.modify i (fun b => { b with place := .inFlight })) }
 
+/-- lines 178–190 of backend.c: when the fragment does not fit, hand the open block to the pool -/
+def overflow (maxBlock : Nat) (st : State) (d : Bytes) : State :=
+  match openIndex st with
+  | some i =>
+    match st.blocks[i]? with
+    | some b => if b.data.length + d.length > maxBlock then closeOpen st else st
+    | none => st
+  | none => st
+
+/-- lines 192–217: the fragment becomes the new open block (next fragment-table index, offset 0) or is appended to
+the open one; result `(index, offset, state)` -/
+def place (st : State) (d : Bytes) (flags : Nat) : Nat × Nat × State :=
+  match openIndex st with
+  | none =>
+    (st.blocks.length, 0,
+      { st with blocks := st.blocks ++ [⟨d, .opened, blkFragmentBlock ||| (flags &&& blkDontCompress)⟩] })
+  | some i =>
+    (i, ((st.blocks[i]?).map (·.data.length)).getD 0,
+      { st with blocks := (st.blocks.modify i
+          (fun b => { b with data := b.data ++ d, flags := b.flags ||| (flags &&& blkDontCompress) })) })
+
+/-- the checksum the worker stored in `frag->checksum` -/
+def fragHash (h : Bytes → UInt32) (d : Bytes) (flags : Nat) : UInt32 :=
+  if hasFlag flags blkDontHash then 0 else h d
+
+/-- lines 151–176: the lookup, skipped under `DONT_DEDUPLICATE` -/
+def findShared (codec : Codec) (byteCompare : Bool) (st : State) (d : Bytes) (hd : UInt32) (flags : Nat) :
+    Except Err (Option Chunk × State) :=
+  if hasFlag flags blkDontDeduplicate then .ok (none, st)
+  else search codec byteCompare st d hd st.table
+
+/-- the part of `process_completed_fragment` after an unsuccessful lookup: store the fragment and record it -/
+def storeFragment (codec : Codec) (byteCompare : Bool) (maxBlock : Nat) (st : State) (d : Bytes) (hd : UInt32)
+    (flags : Nat) : Except Err (Res × State) :=
+  let r := place (overflow maxBlock st d) d flags
+  match insert codec byteCompare r.2.2 d hd ⟨r.1, r.2.1, d.length, hd⟩ [] r.2.2.table with
+  | .error e => .error e
+  | .ok st4 => .ok (.loc r.1 r.2.1, st4)
+
 /-- `process_completed_fragment(proc, frag)` for a fragment with bytes `d` and user flags `flags`
-(`maxBlock = proc->max_block_size`, `h` = the checksum the worker computed). -/
+(`maxBlock = proc->max_block_size`, `h` = the checksum function the worker applied). -/
 def processFragment (codec : Codec) (h : Bytes → UInt32) (byteCompare : Bool) (maxBlock : Nat)
     (st : State) (d : Bytes) (flags : Nat) : Except Err (Res × State) :=
   -- `process_block`: IS_SPARSE unless IGNORE_SPARSE
   if !hasFlag flags blkIgnoreSparse && allZero d then .ok (.sparse, st)
   else
-    let hd : UInt32 := if hasFlag flags blkDontHash then 0 else h d
-    let found : Except Err (Option Chunk × State) :=
-      if hasFlag flags blkDontDeduplicate then .ok (none, st)
-      else search codec byteCompare st d hd st.table
-    match found with
+    match findShared codec byteCompare st d (fragHash h d flags) flags with
     | .error e => .error e
     | .ok (some c, st1) => .ok (.loc c.index c.offset, st1)
-    | .ok (none, st1) =>
-      -- overflow: hand the open block to the pool
-      let st2 :=
-        match openIndex st1 with
-        | some i =>
-          match st1.blocks[i]? with
-          | some b => if b.data.length + d.length > maxBlock then closeOpen st1 else st1
-          | none => st1
-        | none => st1
-      let (index, offset, st3) : Nat × Nat × State :=
-        match openIndex st2 with
-        | none =>
-          (st2.blocks.length, 0,
-            { st2 with blocks := st2.blocks ++ [⟨d, .opened, blkFragmentBlock ||| (flags &&& blkDontCompress)⟩] })
-        | some i =>
-          (i, ((st2.blocks[i]?).map (·.data.length)).getD 0,
-            { st2 with blocks := (st2.blocks.modify i
-                (fun b => { b with data := b.data ++ d, flags := b.flags ||| (flags &&& blkDontCompress) })) })
-      match insert codec byteCompare st3 d hd ⟨index, offset, d.length, hd⟩ [] st3.table with
-      | .error e => .error e
-      | .ok st4 => .ok (.loc index offset, st4)
+    | .ok (none, st1) => storeFragment codec byteCompare maxBlock st1 d (fragHash h d flags) flags
 
 /-- `process_completed_block` of fragment block `idx` (after the worker ran `process_block` on it): the
 in-flight copy is dropped and the block is on disk — compressed when the codec accepted and
